@@ -14,8 +14,8 @@
 #              offset lies entirely before p (the aligner has ignored it), or
 #   re-align : equal a received marker sequence whose offset differs from p's (then p = its end).
 # Before the first marker sequence the output is unconstrained (the aligner has nothing to align to); a marker
-# sequence must have been presented before it is H symbols old.  Words that fall behind by more than H symbols
-# count as lost.
+# sequence must have been presented before it is about H symbols old; once the output shows a received marker sequence the
+# reference is aligned to it.  Words that fall behind by more than H symbols count as lost.
 from rtlmc.model import Design, Violation
 from rtlmc.explore import Spec
 
@@ -23,7 +23,7 @@ PROPERTY = "C34"
 TECHNIQUE = ("explicit-state model checking (per-cycle BFS to closure) of the RxWordAligner / RxPacketAligner netlists "
              "against a position-tracking reference of the received symbol stream; traces replayed in amaranth.sim")
 
-H = 16            # symbols of history kept by the reference (the implementation needs 12)
+H = 24            # symbols of history kept by the reference (today's implementation needs 12; +4 per further output register)
 U = -1            # candidate "not yet aligned to anything"
 
 COM, SHP, SLC, EPF = (0xBC, 1), (0xFB, 1), (0xFE, 1), (0xF7, 1)
@@ -32,17 +32,17 @@ FILL_B = [(0xB0, 1), (0xB1, 0), (0xB2, 0), (0xB3, 1)]
 
 
 def configs(tier):
-    if tier == "quick":       # marker sequences at all four lanes; each look-alike kind at two lanes per configuration
-        return [dict(dut="word", lanes=[0, 1, 2, 3], extras="s", extra_lanes=[1, 3]),
-                dict(dut="word", lanes=[0, 1, 2, 3], extras="e", extra_lanes=[0, 2]),
-                dict(dut="word", lanes=[0, 1, 2, 3], extras="d", extra_lanes=[1, 2]),
-                dict(dut="packet", markers=["shp"], lanes=[0, 1, 2, 3], extras="s", extra_lanes=[0, 3]),
-                dict(dut="packet", markers=["slc"], lanes=[0, 1, 2, 3], extras="e", extra_lanes=[1, 2]),
+    if tier == "quick":
+        return [dict(dut="word", lanes=[0, 1, 2, 3], extras="s"),
+                dict(dut="word", lanes=[0, 1, 2, 3], extras="e"),
+                dict(dut="word", lanes=[0, 1, 2, 3], extras="d"),
+                dict(dut="packet", markers=["shp"], lanes=[0, 1, 2, 3], extras="s"),
+                dict(dut="packet", markers=["slc"], lanes=[0, 1, 2, 3], extras="e"),
                 dict(dut="packet", markers=["shp", "slc"], lanes=[0, 1, 2, 3], extras="")]
     return [dict(dut="word", lanes=[0, 1, 2, 3], extras="sde"),
             dict(dut="packet", markers=["shp"], lanes=[0, 1, 2, 3], extras="sde"),
             dict(dut="packet", markers=["slc"], lanes=[0, 1, 2, 3], extras="sde"),
-            dict(dut="packet", markers=["shp", "slc"], lanes=[0, 1, 2, 3], extras="se")]
+            dict(dut="packet", markers=["shp", "slc"], lanes=[0, 1, 2, 3], extras="sde")]
 
 
 class AlignerSpec(Spec):
@@ -84,7 +84,8 @@ class AlignerSpec(Spec):
                 "words presented with sink.valid low carry no symbols; the upstream stage cannot be stalled",
                 "symbol values other than the marker symbols are only moved, never interpreted (two filler words of "
                 "eight distinct symbols, plus marker look-alikes, stand for arbitrary data)",
-                f"a received marker sequence must be presented, and any received symbol must be output, before it is {H} symbols old",
+                f"a received marker sequence must be presented, and any received symbol must be output, before it is about {H - 4} symbols old "
+                "(today's implementation: 12; the statement fixes no latency)",
                 "the output is unconstrained until the first marker sequence has been received"]
 
     # env = (history: tuple of recent symbols (length a multiple of 4, <= H), carry: symbols spilling into the next word,
@@ -139,17 +140,20 @@ class AlignerSpec(Spec):
             ms = [i for i in matches if i + 4 <= idx]
             return ms[-1] % 4 if ms else last_off
 
-        overdue = n == H and any(i < 4 for i in matches)   # a marker sequence is about to leave the history
+        overdue = any(n - i > H - 4 for i in matches)      # a marker sequence received long ago has still not been presented
         if o.src_valid:
             word = tuple((o.src_data >> (8 * i) & 0xFF, o.src_ctrl >> i & 1) for i in range(4))
             new = set()
             reasons = set()
             for c in cands:
                 if c == U:
+                    presented = False
                     for i in matches:
                         if word == hist[i:i + 4]:
+                            presented = True
                             new.add((n - (i + 4), i % 4)); self.cover[f"first_alignment_lane{i % 4}"] += 1
-                    if overdue: reasons.add("marker-sequence-not-presented")
+                    if presented: pass                      # the output showed a received marker sequence: aligned from here on
+                    elif overdue: reasons.add("marker-sequence-not-presented")
                     else: new.add(U)
                     continue
                 lag, last_off = c
@@ -193,9 +197,9 @@ class AlignerSpec(Spec):
             cands = frozenset(new)
         self.outcomes.add((o.src_valid, o.alignment_offset))
         # forget history the reference can no longer refer to (everything more than 3 symbols before the oldest expected word)
-        if U not in cands:
-            cut = min(max(0, (n - c[0] - 3) // 4 * 4) for c in cands)
-            if cut: hist = hist[cut:]
+        cut = min(max(0, (n - c[0] - 3) // 4 * 4) if c != U else
+                  (matches[0] // 4 * 4 if matches else max(0, n - 4)) for c in cands)   # unaligned: keep the oldest unpresented marker
+        if cut: hist = hist[cut:]
         return (hist, carry2, cands)
 
     def goals(self):
